@@ -187,8 +187,11 @@ ElemAttribute::startElement(StylesheetExecutionContext& executionContext) const
             {
                 // See if the namespace already exists.  If it does, we'll get the
                 // prefix that was used when it was declared.
+                // The XML namespace has the prefix xml, and no other.
                 const XalanDOMString*  const    prefix =
-                    executionContext.getResultPrefixForNamespace(attrNameSpace);
+                    equals(attrNameSpace, DOMServices::s_XMLNamespaceURI) == true ?
+                        &DOMServices::s_XMLString :
+                        executionContext.getResultPrefixForNamespace(attrNameSpace);
 
                 // If there is already a prefix for the namespace, and it's length
                 // is not 0, then go ahead and use that prefix, whatever the prefix
@@ -512,8 +515,11 @@ ElemAttribute::execute(StylesheetExecutionContext&  executionContext) const
             {
                 // See if the namespace already exists.  If it does, we'll get the
                 // prefix that was used when it was declared.
+                // The XML namespace has the prefix xml, and no other.
                 const XalanDOMString*  const    prefix =
-                    executionContext.getResultPrefixForNamespace(attrNameSpace);
+                    equals(attrNameSpace, DOMServices::s_XMLNamespaceURI) == true ?
+                        &DOMServices::s_XMLString :
+                        executionContext.getResultPrefixForNamespace(attrNameSpace);
 
                 // If there is already a prefix for the namespace, and it's length
                 // is not 0, and there is no prefix on the attribute name, or
